@@ -733,7 +733,7 @@ func c18RunHistory(t *testing.T, col *Collector, table []c18Blk, h lHist) {
 
 func c18RunHistoryX(t *testing.T, col *Collector, table []c18Blk, h lHist, rew *[]string) {
 	w := NewWorld(t)
-	m := NewMarket(w, DefaultMarketOpts())
+	m := NewMarket(w, lMarketOpts(h)) // two-pool market (aweth, second oracle pool) when the history asks for it
 	x := &lRun{t: t, col: col, prop: "C18", w: w, m: m, h: h, donated: map[string]*big.Int{}, supply0: map[string]sdkmath.Int{}}
 	x.vaultDonated = sdkmath.ZeroInt()
 	c := &c18Run{t: t, col: col, w: w, m: m, x: x, h: h, table: table, outage: map[string]int64{}, rew: rew}
@@ -769,6 +769,10 @@ func c18RunHistoryX(t *testing.T, col *Collector, table []c18Blk, h lHist, rew *
 				}
 			}
 			col.Op("blocks", "ok", nil)
+			continue
+		case op.Op == "price" && x.qOf(op) == 1: // the second pool's asset (no outages are simulated for it)
+			x.movePrice(op)
+			col.Op("price", "ok", nil)
 			continue
 		case op.Op == "price":
 			f := dec(op.P)
